@@ -127,3 +127,24 @@ Section BatchAnyOrder.
     rewrite (E i d0 Hi), (E' i' d0 Hi'). apply knn_predict_one_ext, Hsame.
   Qed.
 End BatchAnyOrder.
+
+(* ---------- W := nat: a computed instance (the graph and query of Lift2Predict.v) ---------- *)
+From OPF Require Import Proofs.Lift2Predict Proofs.LiftInst.
+
+Definition pkn_dist2 (j : nat) : nat := nth j [1; 9; 9; 9; 9; 9] 0.
+
+Example pkn_batch_premises :
+  strict_total_order Nat.ltb /\
+  (forall dist, In dist [pkn_dist; pkn_dist2; pkn_dist] -> forall j, j < 6 -> Nat.ltb (dist j) 1000 = true).
+Proof.
+  split; [exact nat_order|].
+  intros dist [<-|[<-|[<-|[]]]] j Hj;
+    (destruct j as [|[|[|[|[|[|j]]]]]]; [reflexivity|reflexivity|reflexivity|reflexivity|reflexivity|reflexivity|lia]).
+Qed.
+
+Example pkn_batch_result :
+  knn_predict_batch Nat.ltb 0 1000 0 pkn_g 3 6 (fun _ _ => 8) [pkn_dist; pkn_dist2; pkn_dist]
+  = [Some 4; Some 1; Some 4] /\
+  map (knn_predict_one Nat.ltb 0 1000 0 pkn_g 3 6 (fun _ _ => 8)) [pkn_dist; pkn_dist2; pkn_dist]
+  = [Some 4; Some 1; Some 4].
+Proof. split; vm_compute; reflexivity. Qed.
